@@ -146,6 +146,26 @@ def gen_case(seed, i, mode='main'):
         q = G.gen_request(r, cur, uid='q%d' % nreq, origin=origin, target=origin if r.random() < 0.3 else None)
         nreq += 1
         op = {'op': 'request', 'req': {'kind': q['kind'], 'source': q['source'], 'position': q['position'], 'file': q['file'], 'indirect': q.get('indirect', False)}}
+        if r.random() < mid_rate and r.random() < 0.5:
+            # the editor saves exactly the file supp is looking at: a new version of every module is prepared, the
+            # one whose file is accessed at the chosen I/O call is written
+            alts = {}
+            mods2 = list(cur['modules'])
+            for mi, m in enumerate(cur['modules']):
+                if G.short(m['name']).startswith(('zqlate_', 'zqlsub_')):
+                    nm = late_module(m['name'], m['version'] + 1)
+                else:
+                    top = max([m['version']] + [h['version'] for h in state['history'].get(m['name'], [])])
+                    nm = _reversion(r, cur, mi, top + 1)
+                alts[m['name']] = nm
+            op['mid'] = {'at': r.choice((0, 1, 2, 3, 4, 5, 6, 8, 10, 13, 17)), 'when': r.choice(('stat', 'open', 'any')),
+                         'edit': {'op': 'rewrite_accessed', 'alts': alts, 'dt_ms': r.choice(DTS_MS)}}
+            op['mid_spec_after'] = True
+            ops.append(op)
+            # which module gets rewritten is known only at run time: later requests are generated against the
+            # interface (stable names), and the engine tracks the real content
+            last_edit = None
+            continue
         if r.random() < mid_rate:
             e, cur2 = gen_edit(r, cur, state, backward)
             if e['op'] in ('rewrite', 'revert'):
@@ -299,8 +319,21 @@ class History(object):
         self.mtimes[path] = stamp
         G.write_module(self.root, mod, stamp)
 
-    def apply_edit(self, op):
+    def apply_edit(self, op, accessed=None):
         k = op['op']
+        if k == 'rewrite_accessed':
+            # the module whose file is being accessed right now (if it is a project module)
+            rel = os.path.relpath(str(accessed), self.root) if accessed else None
+            target = next((m for m in self.current.values() if G.relpath(m) == rel), None)
+            if target is None or target['name'] not in op['alts']:
+                return False
+            nm = op['alts'][target['name']]
+            self.fault('edit_rewrite_of_accessed_file')
+            self.current[target['name']] = nm
+            self.write(nm, op['dt_ms'])
+            self.edits_since_request += 1
+            self.log.add('edit', k, target['name'], op['dt_ms'])
+            return True
         self.fault('edit_' + k)
         if k == 'touch':
             mod = self.current[op['module']]
@@ -319,6 +352,7 @@ class History(object):
             self.probes['edit_of_unloaded_module'] += 1
         self.edits_since_request += 1
         self.log.add('edit', k, name, op['dt_ms'])
+        return True
 
     def run(self):
         case = self.case
@@ -354,17 +388,17 @@ class History(object):
                 landed = {'done': False}
                 if mid:
                     def hook(kind, path, idx, mid=mid, landed=landed):
-                        if not landed['done'] and idx >= mid['at']:
-                            landed['done'] = True
-                            self.apply_edit(mid['edit'])
-                            self.probes['edit_landed_inside_request'] += 1
-                            self.fault('edit_during_request')
+                        if not landed['done'] and idx >= mid['at'] and mid.get('when', 'any') in ('any', kind):
+                            if self.apply_edit(mid['edit'], accessed=path):
+                                landed['done'] = True
+                                self.probes['edit_landed_inside_request'] += 1
+                                self.fault('edit_during_request')
                     self.fs.hook = hook
                 io0 = self.fs.calls
                 got = ask(server, self.root, req)
                 self.fs.hook = None
                 nio = self.fs.calls - io0
-                deferred = mid['edit'] if (mid and not landed['done']) else None
+                deferred = mid['edit'] if (mid and not landed['done'] and mid['edit']['op'] != 'rewrite_accessed') else None
                 self.loaded = set(server.project._module_cache)
                 if landed['done']:
                     # either version, or a mixture, is acceptable for the request an edit landed in
@@ -492,9 +526,12 @@ def _brief_op(o):
     if o['op'] == 'request':
         d = {'op': 'request', 'kind': o['req']['kind'], 'source': o['req']['source'][:120], 'position': o['req']['position']}
         if o.get('mid'):
-            d['edit_during_request'] = {'at_io_call': o['mid']['at'], 'edit': _brief_op(o['mid']['edit'])}
+            d['edit_during_request'] = {'at_io_call': o['mid']['at'], 'when': o['mid'].get('when', 'any'),
+                                        'edit': _brief_op(o['mid']['edit'])}
         return d
     d = {'op': o['op'], 'dt_ms': o['dt_ms']}
+    if o['op'] == 'rewrite_accessed':
+        d['modules_prepared'] = sorted(o['alts'])
     if 'module' in o:
         d['module'] = o['module']
     if 'newmod' in o:
@@ -546,7 +583,7 @@ def shrink(case, sig):
             base = c
     o_i = 0
     while o_i < len(base['ops']):
-        if base['ops'][o_i].get('mid') and budget.take():
+        if base['ops'][o_i].get('mid') and base['ops'][o_i]['mid']['edit']['op'] != 'rewrite_accessed' and budget.take():
             c = copy.deepcopy(base)
             mid = c['ops'][o_i].pop('mid')
             c['ops'].insert(o_i + 1, mid['edit'])
